@@ -1,7 +1,8 @@
 #ifndef OPMIN_META_H
 #define OPMIN_META_H
 
-#ifndef FASTOR_DONT_PERFORM_OP_MIN
+// The cost models below are needed (by einsum_helper) even when operation minimisation is switched off
+// with FASTOR_DONT_PERFORM_OP_MIN, so this header is no longer guarded by that macro
 
 #include "tensor_meta.h"
 #include "einsum_meta.h"
@@ -614,7 +615,6 @@ struct einsum_helper<Ind0,Ind1,Ind2,Ind3,Ind4,Ind5,Tensor0,Tensor1,Tensor2,Tenso
 } // end of namespace Fastor
 
 
-#endif // FASTOR_DONT_PERFORM_OP_MIN
 
 
 #endif // OPMIN_META_H
